@@ -55,9 +55,23 @@ def origin_key(origin: Any) -> str:
     return "?" + origin.fqn
 
 
+class ShapeError(Exception):
+    """a child position of a node produced by the library holds something that is not a node"""
+
+
 def children_of(o: Any) -> list[tuple[str, int | None, Any]]:
     """Child positions of a node by the universe TABLE (falsy children included)."""
+    out = _children_of(o)
+    for f, i, c in out:
+        if not isinstance(c, ASTNode):
+            raise ShapeError(f"{cname(o)}.{f}[{i}] holds a {type(c).__name__}, not a node")
+    return out
+
+
+def _children_of(o: Any) -> list[tuple[str, int | None, Any]]:
     out: list[tuple[str, int | None, Any]] = []
+    if not isinstance(o, ASTNode):
+        raise ShapeError(f"a {type(o).__name__} where a node is expected")
     if cname(o) not in U.CLS:
         # a node class outside the universe (e.g. the library's synthetic xpath root that took over an id)
         for df in dataclasses.fields(o):
@@ -188,10 +202,11 @@ class World:
         FAULTS.disarm()
         if len(NODE_REGISTRY) != 0:
             raise HarnessError("registry not pristine at run start")
+        self.old_dyn = None
         if cfg.get("dyn_redefine"):
-            U.redefine_dyn()
+            self.old_dyn = U.redefine_dyn(keep=bool(cfg.get("dyn_keep_old")))
             collect()
-            if len(NODE_REGISTRY) != 0:
+            if len(NODE_REGISTRY) != (1 if self.old_dyn is not None else 0):
                 raise HarnessError("registry not pristine after class redefinition")
 
     # ---- handles / references -----------------------------------------------------------------
@@ -325,20 +340,25 @@ class World:
         self.reg_before = {k: id(v) for k, v in list(NODE_REGISTRY.items())}
         self.trace.append(op)
         try:
-            outcome = fn(op)
-        except SkipOp:
-            self.trace.pop()
-            self.stats.skipped += 1
-            return
-        finally:
-            FAULTS.disarm()
-            self.extra_roots = []
-        self.stats.note_step(op.get("actor", "a0"), kind, outcome)
-        if self.cfg["gc"] == "exact" or kind == "gc":
-            collect()
-        self.discover()
-        self.check_all(op, outcome)
-        self.fingerprint()
+            try:
+                outcome = fn(op)
+            except SkipOp:
+                self.trace.pop()
+                self.stats.skipped += 1
+                return
+            finally:
+                FAULTS.disarm()
+                self.extra_roots = []
+            self.stats.note_step(op.get("actor", "a0"), kind, outcome)
+            if self.cfg["gc"] == "exact" or kind == "gc":
+                collect()
+            self.discover()
+            self.check_all(op, outcome)
+            self.fingerprint()
+        except ShapeError as e:
+            # every property here is about trees of nodes: a tree the library built from well-formed input with a
+            # non-node in a child position is outside all of them
+            raise self.viol(f"{self.prop}.0 malformed-tree", f"{self.prop}.0:shape:{kind}", f"after {kind}: {e}", op=kind) from None
 
     # ---- invariants after every step ----------------------------------------------------------
     def check_all(self, op: dict[str, Any], outcome: str) -> None:
@@ -416,6 +436,8 @@ class World:
                 )
 
     def allowed_extra(self, obj: Any) -> bool:
+        if obj is self.old_dyn:
+            return True  # an instance of the OLD class of a re-defined name, kept alive by the user
         # the synthetic xpath root is a node that is alive while a findall generator is suspended
         if cname(obj) == "_DUMMY_XPATH_ROOT":
             return any(h.kind == "gen" for h in self.handles.values())
@@ -476,6 +498,17 @@ class World:
             sentinel = ASTNode.get_any("no-such-id", o)
             if sentinel is not o:
                 raise self.viol("C03.5 get_any-default", f"C03.5:default:{kind}", "get_any(unknown, default) did not return the default")
+        if self.old_dyn is not None:
+            # two live classes share the name "Dyn": strict get() is by class, not by name
+            od = self.old_dyn
+            if ASTNode.get_any(od.id) is od:
+                if U.CLS["Dyn"].get(od.id) is not None or U.CLS["Dyn"].get(od.id, strict=False) is not None:
+                    raise self.viol("C03.5 get-other-class-same-name", f"C03.5:same-name:{kind}", "the re-defined class' get() returned a node of the OLD class of the same name")
+                if type(od).get(od.id) is not od:
+                    raise self.viol("C03.5 get-own-class", f"C03.5:own-old:{kind}", "the old class' get() does not return its own registered node")
+                for o in self.last_reach:
+                    if cname(o) == "Dyn" and self.inf(o).reg and type(od).get(o.id) is not None:
+                        raise self.viol("C03.5 get-other-class-same-name", f"C03.5:same-name-old:{kind}", "the OLD class' strict get() returned a node of the re-defined class of the same name")
         if exact:
             for k, v in list(NODE_REGISTRY.items()):
                 if k in expect and expect[k] is v:
@@ -1002,6 +1035,13 @@ class Gen:
             return {"order": order}
         return v
 
+    def iterblock_spec(self, depth: int) -> dict[str, Any]:
+        r = self.r("spec")
+        cls = r.choice(["IterBlock", "IterBlock", "IterBlock2"])
+        p = {"label": self.value("str")} if cls == "IterBlock2" and r.random() < 0.7 else {}
+        items = [self.spec(max(depth - 1, 0)) for _ in range(r.choice([0, 1, 2]))]
+        return {"c": cls, "p": p, "ch": {"items": items}, "o": r.choice(self.cfg["origins"])}
+
     def spec(self, depth: int, want: str = "any") -> dict[str, Any]:
         r = self.r("spec")
         cfg = self.cfg
@@ -1031,7 +1071,9 @@ class Gen:
             p[f.name] = self.value(f.vt)
         ch: dict[str, Any] = {}
         for f in U.CHILD_FIELDS[cls]:
-            if f.kind == "child":
+            if f.kind == "child" and f.vt == "iterblock":
+                ch[f.name] = self.iterblock_spec(depth)
+            elif f.kind == "child":
                 ch[f.name] = self.spec(depth - 1)
             elif f.kind == "opt":
                 if r.random() < 0.6:
@@ -1342,6 +1384,8 @@ class Gen:
         for f in r.sample(cands, min(n, len(cands))) if cands else []:
             if f.kind == "prop":
                 ch[f.name] = {"v": self.value(f.vt)}
+            elif f.kind == "child" and f.vt == "iterblock":
+                ch[f.name] = {"spec": self.iterblock_spec(1)}
             elif f.kind == "child":
                 ch[f.name] = {"spec": self.spec(1)}
             elif f.kind == "opt":
@@ -1522,7 +1566,7 @@ class Gen:
     def gen_rules(self, o: Any) -> dict[str, Any]:
         r = self.r("rules")
         present = sorted({cname(x) for x in walk(o)})
-        cands = sorted(set(present) | {"Expr", "Seq", "LeafA"})
+        cands = sorted(set(present) | {"Expr", "Seq", "LeafA", "ASTNode"})
         n = r.choice([1, 1, 2, 3])
         rules: dict[str, Any] = {}
         for c in r.sample(cands, min(n, len(cands))):
@@ -1624,6 +1668,8 @@ def make_config(rseed: int, prop: str, tier: str, faults: bool) -> dict[str, Any
         strpool = ["1" + infix + "2" + e, "3", "1" + e, "2" + infix + "3"] + r.sample(U.STR_POOL, 1)
     leafs = ["LeafA", "LeafB", "LeafA2", "Meta"]
     extra = ["Vals", "Carrier", "Boom", "Serial", "Upper", "Lit", "Located", "Typed", "Dyn", "CaseMix", "Both"]
+    if prop in ("C01", "C03"):
+        extra.append("FS2")
     if prop in ("C01",):
         extra.append("FS")
         if r.random() < 0.25:
@@ -1638,6 +1684,8 @@ def make_config(rseed: int, prop: str, tier: str, faults: bool) -> dict[str, Any
             leafs += ["Dyn", "Both"]
     if prop == "C14" and r.random() < 0.4:
         leafs += ["Both", "Located"]
+    if prop == "C03" and r.random() < 0.3:
+        leafs += ["Dyn"]
     if prop == "C01" and r.random() < 0.3:
         leafs += ["CaseMix", "CaseMix"]
     if prop == "C04":
@@ -1695,6 +1743,7 @@ def make_config(rseed: int, prop: str, tier: str, faults: bool) -> dict[str, Any
         "weights": weights,
         "formats": r.sample(list(FORMATS), r.choice([1, 2, 4])),
         "dyn_redefine": "Dyn" in leafs and r.random() < 0.6,
+        "dyn_keep_old": prop == "C03" and r.random() < 0.5,
         "scripts": prop in ("C14", "C04", "C03") and r.random() < 0.6,
         "trace_logging": r.random() < 0.1,
         "exotic_origins": exotic,
@@ -1896,7 +1945,7 @@ def make_visitor(rules: dict[str, Any], strict: bool, world: "World", transform:
 def rule_for(cls: str, rules: dict[str, Any], strict: bool) -> tuple[str | None, Any]:
     if strict:
         return (cls, rules[cls]) if cls in rules else (None, None)
-    for c in U.MRO[cls]:
+    for c in list(U.MRO[cls]) + ["ASTNode"]:
         if c in rules:
             return c, rules[c]
     return None, None
